@@ -19,7 +19,72 @@ theorem listIndex_eq (xs : List (List Char)) (x : List Char) :
   unfold listIndex
   split <;> rfl
 
-/- OUTSTANDING: `ChkLang.path_language opt path = ofStage (stagePath opt path)` — the proof was not finished (see DESIGN-notes/locale.md);
-   `Generated/ChkLang.lean` is therefore NOT part of any tie: correspondence-only. -/
+set_option hygiene false in
+/-- the base-name stage, once the earlier stages have produced no language -/
+local macro "base_tac" : tactic => `(tactic| (
+  cases hps : parseLanguageE stem with
+  | error e => cases e <;> simp [hps, PyKit.tryExcept, LErr.isLanguageError, Except.map, Except.bind]
+  | ok l =>
+    cases hen : l.enc with
+    | some en => simp [hen, hps, PyKit.tryExcept, LErr.isLanguageError, Except.map, Except.bind]
+    | none =>
+      cases hfx : fixCodes l with
+      | error e => cases e <;> simp [hen, hfx, PyKit.tryExcept, LErr.isLanguageError, Except.map, Except.bind]
+      | ok r => obtain ⟨l', f⟩ := r; simp [hen, hfx, PyKit.tryExcept, Except.map, Except.bind]))
+
+set_option hygiene false in
+/-- after the `LC_MESSAGES` stage: closed already, or the base-name stage remains -/
+local macro "after_lc" : tactic => `(tactic| (
+  first
+    | (simp [PyKit.tryExcept, LErr.isLanguageError, Except.map, Except.bind]; done)
+    | ((try simp only [PyKit.tryExcept, LErr.isLanguageError, Except.map, Except.bind, if_true, if_false, Bool.false_eq_true]); base_tac)))
+
+/-- the path-derived part of `check_language` as regenerated = the model's `stagePath` -/
+theorem path_language_eq (opt : Option Language) (path : List Char) :
+    ChkLang.path_language opt path = ofStage (stagePath opt path) := by
+  unfold ChkLang.path_language stagePath ofStage
+  simp only [parse_language_eq, fix_codes_eq, remove_encoding_eq, remove_nonlinguistic_modifier_eq, listIndex_eq, bind_ok]
+  cases opt with
+  | some l => rfl
+  | none =>
+    simp only [lcMessagesLanguage, basenameLanguage, bind_ok]
+    -- from here on the path only occurs through these three opaque values
+    generalize splitOn '/' (normpath path) = comps
+    generalize List.findIdx (fun x => decide (x = "LC_MESSAGES".toList)) comps = i
+    generalize splitext (basename path) = se
+    obtain ⟨stem, ext⟩ := se
+    generalize ".po".toList = po
+    simp only []
+    by_cases hext : ext = po
+    · subst hext
+      simp only [decide_true, if_true, ne_eq, not_true_eq_false, if_false]
+      by_cases hi : i < comps.length ∧ i > 0
+      · obtain ⟨h1, h2⟩ := hi
+        simp only [h1, h2, if_true, and_self, decide_true]
+        cases hp : parseLanguageE (comps.getD (i - 1) []) with
+        | error e => cases e <;> after_lc
+        | ok l0 =>
+          simp only [bind_ok]
+          cases hf0 : fixCodes l0 with
+          | error e => cases e <;> after_lc
+          | ok r0 => obtain ⟨l0', f0⟩ := r0; simp [hp, hf0, PyKit.tryExcept, Except.map, Except.bind]
+      · have hz : ¬ ((if i < comps.length then i else 0) > 0) := by
+          intro h; apply hi; split at h <;> omega
+        simp only [hz, decide_false, Bool.false_eq_true, if_false, hi]
+        after_lc
+    · simp only [hext, decide_false, Bool.false_eq_true, if_false]
+      by_cases hi : i < comps.length ∧ i > 0
+      · obtain ⟨h1, h2⟩ := hi
+        simp only [h1, h2, if_true, and_self, decide_true]
+        cases hp : parseLanguageE (comps.getD (i - 1) []) with
+        | error e => cases e <;> simp [PyKit.tryExcept, LErr.isLanguageError, Except.map, Except.bind]
+        | ok l0 =>
+          simp only [bind_ok]
+          cases hf0 : fixCodes l0 with
+          | error e => cases e <;> simp [PyKit.tryExcept, LErr.isLanguageError, Except.map, Except.bind]
+          | ok r0 => obtain ⟨l0', f0⟩ := r0; simp [hp, hf0, PyKit.tryExcept, Except.map, Except.bind]
+      · have hz : ¬ ((if i < comps.length then i else 0) > 0) := by
+          intro h; apply hi; split at h <;> omega
+        simp [hz, hi, Except.map, Except.bind]
 
 end I18n.Locale.Gen
